@@ -82,9 +82,10 @@ package interpreter
 //@   assigns (bigcell (. n val))
 //@   ensures[C05.num_div] (= (bigval (. n val)) (spec.tdiv (old (bigval (. n val))) (old (bigval (. o val)))))
 //@ func interpreter.(*scriptNumber).Mod
+//@   opt reveal tmod
 //@   requires (distinct (bigval (. o val)) 0)
 //@   assigns (bigcell (. n val))
-//@   ensures[C05.num_mod] (= (bigval (. n val)) (- (old (bigval (. n val))) (* (old (bigval (. o val))) (spec.tdiv (old (bigval (. n val))) (old (bigval (. o val)))))))
+//@   ensures[C05.num_mod] (= (bigval (. n val)) (spec.tmod (old (bigval (. n val))) (old (bigval (. o val)))))
 //@ func interpreter.(*scriptNumber).Incr
 //@   assigns (bigcell (. n val))
 //@   ensures[C05.num_incr] (= (bigval (. n val)) (+ (old (bigval (. n val))) 1))
@@ -442,3 +443,123 @@ package interpreter
 //@   pure
 //@   ensures[C05.asbool] (= result (spec.truthy (bytes t)))
 //@   loop 0 invariant (forall ((j Int)) (=> (and (<= 0 j) (<= j rangeindex)) (= (bat (bytes t) j) 0)))
+//@ func interpreter.fromBool
+//@   bytes token
+//@   ensures[C05.frombool] (= (bytes result) (ite v (b1 1) beps))
+//@ func interpreter.(*stack).PushBool
+//@   opt forall-patterns 1
+//@   assigns (. s stk) (elems (. s stk))
+//@   ensures[C05.pushbool] (and (= (len (. s stk)) (+ (old (len (. s stk))) 1)) (= (bytes (at (. s stk) (old (len (. s stk))))) (ite val (b1 1) beps)))
+//@   ensures[C05.pushbool_rest] (forall ((k Int)) (=> (and (<= 0 k) (< k (old (len (. s stk))))) (= (at (. s stk) k) (old (at (. s stk) k)))))
+//@ func interpreter.(*stack).PopBool
+//@   opt forall-patterns 1
+//@   assigns (. s stk) (elems (. s stk))
+//@   ensures[C05.popbool_err] (= (= err nil) (>= (old (len (. s stk))) 1))
+//@   ensures[C05.popbool] (=> (= err nil) (and (= (len (. s stk)) (- (old (len (. s stk))) 1)) (= r0 (spec.truthy (old (bytes (at (. s stk) (- (len (. s stk)) 1))))))))
+//@   ensures[C05.popbool_rest] (=> (= err nil) (forall ((k Int)) (=> (and (<= 0 k) (< k (len (. s stk)))) (= (at (. s stk) k) (old (at (. s stk) k))))))
+//@ func interpreter.makeScriptNumber
+//@   define (= (= err nil) (num_ok (bytes bb) scriptNumLen requireMinimal))
+//@ func interpreter.(*stack).PopInt
+//@   ensures[C05.popint_err] (= (= err nil) (and (>= (old (len (. s stk))) 1) (num_ok (old (bytes (at (. s stk) (- (len (. s stk)) 1)))) (. s maxNumLength) (. s verifyMinimalData))))
+//@ func interpreter.abstractVerify
+//@   opt forall-patterns 1
+//@   ensures[C05.verify_err] (= (= err nil) (and (>= (old (len (. t dstack stk))) 1) (spec.truthy (old (bytes (at (. t dstack stk) (- (len (. t dstack stk)) 1)))))))
+//@   ensures[C05.verify] (=> (= err nil) (and (= (len (. t dstack stk)) (- (old (len (. t dstack stk))) 1)) (forall ((k Int)) (=> (and (<= 0 k) (< k (len (. t dstack stk)))) (= (at (. t dstack stk) k) (old (at (. t dstack stk) k)))))))
+//@ func interpreter.opcodeVerify
+//@   opt forall-patterns 1
+//@   ensures[C05.opcodeVerify_err] (= (= err nil) (and (>= (old (len (. t dstack stk))) 1) (spec.truthy (old (bytes (at (. t dstack stk) (- (len (. t dstack stk)) 1)))))))
+//@   ensures[C05.opcodeVerify] (=> (= err nil) (and (= (len (. t dstack stk)) (- (old (len (. t dstack stk))) 1)) (forall ((k Int)) (=> (and (<= 0 k) (< k (len (. t dstack stk)))) (= (at (. t dstack stk) k) (old (at (. t dstack stk) k)))))))
+//@ func interpreter.opcodeMul
+//@   opt forall-patterns 1
+//@   ensures[C05.opcodeMul] (=> (= err nil) (spec.stack_result t 2 (* (old (spec.top_num t 0)) (old (spec.top_num t 1)))))
+//@   ensures[C05.opcodeMul_err] (= (= err nil) (and (>= (old (len (. t dstack stk))) 2) (old (spec.top_ok t 0)) (old (spec.top_ok t 1))))
+//@ func interpreter.opcodeDiv
+//@   opt forall-patterns 1
+//@   ensures[C05.opcodeDiv] (=> (= err nil) (and (distinct (old (spec.top_num t 0)) 0) (spec.stack_result t 2 (spec.tdiv (old (spec.top_num t 1)) (old (spec.top_num t 0))))))
+//@   ensures[C05.opcodeDiv_err] (= (= err nil) (and (>= (old (len (. t dstack stk))) 2) (old (spec.top_ok t 0)) (old (spec.top_ok t 1)) (distinct (old (spec.top_num t 0)) 0)))
+//@ func interpreter.opcodeMod
+//@   opt forall-patterns 1
+//@   ensures[C05.opcodeMod] (=> (= err nil) (and (distinct (old (spec.top_num t 0)) 0) (spec.stack_result t 2 (spec.tmod (old (spec.top_num t 1)) (old (spec.top_num t 0))))))
+//@   ensures[C05.opcodeMod_err] (= (= err nil) (and (>= (old (len (. t dstack stk))) 2) (old (spec.top_ok t 0)) (old (spec.top_ok t 1)) (distinct (old (spec.top_num t 0)) 0)))
+//@ func interpreter.opcodeAdd
+//@   ensures[C05.opcodeAdd_err] (= (= err nil) (and (>= (old (len (. t dstack stk))) 2) (old (spec.top_ok t 0)) (old (spec.top_ok t 1))))
+//@ func interpreter.opcodeSub
+//@   ensures[C05.opcodeSub_err] (= (= err nil) (and (>= (old (len (. t dstack stk))) 2) (old (spec.top_ok t 0)) (old (spec.top_ok t 1))))
+
+// ---- C05 (continued): EQUAL, IFDUP, constants, 2DUP/3DUP/2OVER, SWAP/ROT/2SWAP/2ROT, PICK/ROLL ----
+//@ func interpreter.opcodeEqual
+//@   bytes token
+//@   opt forall-patterns 1
+//@   ensures[C05.opcodeEqual] (=> (= err nil) (spec.stack_res_bytes t 2 (ite (= (old (spec.top_bytes t 0)) (old (spec.top_bytes t 1))) (b1 1) beps)))
+//@   ensures[C05.opcodeEqual_err] (= (= err nil) (>= (old (len (. t dstack stk))) 2))
+//@ func interpreter.opcodeEqualVerify
+//@   opt forall-patterns 1
+//@   opt bytes-axioms 1
+//@   ensures[C05.opcodeEqualVerify_err] (= (= err nil) (and (>= (old (len (. t dstack stk))) 2) (= (old (spec.top_bytes t 0)) (old (spec.top_bytes t 1)))))
+//@   ensures[C05.opcodeEqualVerify] (=> (= err nil) (and (= (len (. t dstack stk)) (- (old (len (. t dstack stk))) 2)) (forall ((k Int)) (=> (and (<= 0 k) (< k (len (. t dstack stk)))) (= (at (. t dstack stk) k) (old (at (. t dstack stk) k)))))))
+//@ func interpreter.opcodeIfDup
+//@   opt forall-patterns 1
+//@   ensures[C05.opcodeIfDup_err] (= (= err nil) (>= (old (len (. t dstack stk))) 1))
+//@   ensures[C05.opcodeIfDup] (=> (= err nil) (and (= (len (. t dstack stk)) (ite (spec.truthy (old (spec.top_bytes t 0))) (+ (old (len (. t dstack stk))) 1) (old (len (. t dstack stk))))) (= (at (. t dstack stk) (- (len (. t dstack stk)) 1)) (old (at (. t dstack stk) (- (len (. t dstack stk)) 1)))) (forall ((k Int)) (=> (and (<= 0 k) (< k (old (len (. t dstack stk))))) (= (at (. t dstack stk) k) (old (at (. t dstack stk) k)))))))
+//@ func interpreter.opcodeFalse
+//@   opt forall-patterns 1
+//@   ensures[C05.opcodeFalse] (and (= err nil) (= (len (. t dstack stk)) (+ (old (len (. t dstack stk))) 1)) (= (len (at (. t dstack stk) (old (len (. t dstack stk))))) 0) (forall ((k Int)) (=> (and (<= 0 k) (< k (old (len (. t dstack stk))))) (= (at (. t dstack stk) k) (old (at (. t dstack stk) k))))))
+//@ func interpreter.opcodePushData
+//@   opt forall-patterns 1
+//@   ensures[C05.opcodePushData] (and (= err nil) (= (len (. t dstack stk)) (+ (old (len (. t dstack stk))) 1)) (= (at (. t dstack stk) (old (len (. t dstack stk)))) (old (. op Data))) (forall ((k Int)) (=> (and (<= 0 k) (< k (old (len (. t dstack stk))))) (= (at (. t dstack stk) k) (old (at (. t dstack stk) k))))))
+//@ func interpreter.opcode1Negate
+//@   opt forall-patterns 1
+//@   ensures[C05.opcode1Negate] (and (= err nil) (= (len (. t dstack stk)) (+ (old (len (. t dstack stk))) 1)) (= (bytes (at (. t dstack stk) (old (len (. t dstack stk))))) (enc_num (- 1))) (forall ((k Int)) (=> (and (<= 0 k) (< k (old (len (. t dstack stk))))) (= (at (. t dstack stk) k) (old (at (. t dstack stk) k))))))
+//@ func interpreter.opcodeN
+//@   bytes token
+//@   opt forall-patterns 1
+//@   ensures[C05.opcodeN] (and (= err nil) (= (len (. t dstack stk)) (+ (old (len (. t dstack stk))) 1)) (= (bytes (at (. t dstack stk) (old (len (. t dstack stk))))) (b1 (mod (- (. op op val) 80) 256))) (forall ((k Int)) (=> (and (<= 0 k) (< k (old (len (. t dstack stk))))) (= (at (. t dstack stk) k) (old (at (. t dstack stk) k))))))
+//@ func interpreter.opcode2Dup
+//@   opt forall-patterns 1
+//@   ensures[C05.opcode2Dup] (and (= (= err nil) (>= (old (len (. t dstack stk))) 2)) (=> (= err nil) (and (= (len (. t dstack stk)) (+ (old (len (. t dstack stk))) 2)) (= (at (. t dstack stk) (old (len (. t dstack stk)))) (old (at (. t dstack stk) (- (len (. t dstack stk)) 2)))) (= (at (. t dstack stk) (+ (old (len (. t dstack stk))) 1)) (old (at (. t dstack stk) (- (len (. t dstack stk)) 1)))) (forall ((k Int)) (=> (and (<= 0 k) (< k (old (len (. t dstack stk))))) (= (at (. t dstack stk) k) (old (at (. t dstack stk) k))))))))
+//@ func interpreter.opcode3Dup
+//@   opt index-fn 1
+//@   ensures[C05.opcode3Dup] (and (= (= err nil) (>= (old (len (. t dstack stk))) 3)) (=> (= err nil) (and (= (len (. t dstack stk)) (+ (old (len (. t dstack stk))) 3)) (= (at (. t dstack stk) (old (len (. t dstack stk)))) (old (at (. t dstack stk) (- (len (. t dstack stk)) 3)))) (= (at (. t dstack stk) (+ (old (len (. t dstack stk))) 1)) (old (at (. t dstack stk) (- (len (. t dstack stk)) 2)))) (= (at (. t dstack stk) (+ (old (len (. t dstack stk))) 2)) (old (at (. t dstack stk) (- (len (. t dstack stk)) 1)))) (forall ((k Int)) (=> (and (<= 0 k) (< k (old (len (. t dstack stk))))) (= (at (. t dstack stk) k) (old (at (. t dstack stk) k))))))))
+//@ func interpreter.opcode2Over
+//@   opt forall-patterns 1
+//@   ensures[C05.opcode2Over] (and (= (= err nil) (>= (old (len (. t dstack stk))) 4)) (=> (= err nil) (and (= (len (. t dstack stk)) (+ (old (len (. t dstack stk))) 2)) (= (at (. t dstack stk) (old (len (. t dstack stk)))) (old (at (. t dstack stk) (- (len (. t dstack stk)) 4)))) (= (at (. t dstack stk) (+ (old (len (. t dstack stk))) 1)) (old (at (. t dstack stk) (- (len (. t dstack stk)) 3)))) (forall ((k Int)) (=> (and (<= 0 k) (< k (old (len (. t dstack stk))))) (= (at (. t dstack stk) k) (old (at (. t dstack stk) k))))))))
+//@ func interpreter.(*stack).RotN
+//@   opt index-fn 1
+//@   requires (<= n 100000000)
+//@   assigns (. s stk) (elems (. s stk))
+//@   ensures[C05.rotn_err] (= (= err nil) (and (>= n 1) (<= (* 3 n) (old (len (. s stk))))))
+//@   ensures[C05.rotn] (=> (= err nil) (and (= (len (. s stk)) (old (len (. s stk)))) (forall ((k Int)) (=> (and (<= 0 k) (< k (- (old (len (. s stk))) (* 3 n)))) (= (at (. s stk) k) (old (at (. s stk) k))))) (forall ((k Int)) (=> (and (<= (- (old (len (. s stk))) (* 3 n)) k) (< k (- (old (len (. s stk))) n))) (= (at (. s stk) k) (old (at (. s stk) (+ k n)))))) (forall ((k Int)) (=> (and (<= (- (old (len (. s stk))) n) k) (< k (old (len (. s stk))))) (= (at (. s stk) k) (old (at (. s stk) (- k (- (* 3 n) n)))))))))
+//@   loop 0 invariant (and (>= n 1) (<= 0 i) (<= i n) (= entry (- (* 3 n) 1)) (= (len (. s stk)) (old (len (. s stk)))) (or (= i n) (<= (* 3 n) (old (len (. s stk))))))
+//@   loop 0 invariant (forall ((k Int)) (=> (and (<= 0 k) (< k (- (old (len (. s stk))) (* 3 n)))) (= (at (. s stk) k) (old (at (. s stk) k)))))
+//@   loop 0 invariant (forall ((k Int)) (=> (and (<= (- (old (len (. s stk))) (* 3 n)) k) (< k (- (old (len (. s stk))) (- n i)))) (= (at (. s stk) k) (old (at (. s stk) (+ k (- n i)))))))
+//@   loop 0 invariant (forall ((k Int)) (=> (and (<= (- (old (len (. s stk))) (- n i)) k) (< k (old (len (. s stk))))) (= (at (. s stk) k) (old (at (. s stk) (- k (- (* 3 n) (- n i))))))))
+//@ func interpreter.(*stack).SwapN
+//@   opt index-fn 1
+//@   requires (<= n 100000000)
+//@   assigns (. s stk) (elems (. s stk))
+//@   ensures[C05.swapn_err] (= (= err nil) (and (>= n 1) (<= (* 2 n) (old (len (. s stk))))))
+//@   ensures[C05.swapn] (=> (= err nil) (and (= (len (. s stk)) (old (len (. s stk)))) (forall ((k Int)) (=> (and (<= 0 k) (< k (- (old (len (. s stk))) (* 2 n)))) (= (at (. s stk) k) (old (at (. s stk) k))))) (forall ((k Int)) (=> (and (<= (- (old (len (. s stk))) (* 2 n)) k) (< k (- (old (len (. s stk))) n))) (= (at (. s stk) k) (old (at (. s stk) (+ k n)))))) (forall ((k Int)) (=> (and (<= (- (old (len (. s stk))) n) k) (< k (old (len (. s stk))))) (= (at (. s stk) k) (old (at (. s stk) (- k (- (* 2 n) n)))))))))
+//@   loop 0 invariant (and (>= n 1) (<= 0 i) (<= i n) (= entry (- (* 2 n) 1)) (= (len (. s stk)) (old (len (. s stk)))) (or (= i n) (<= (* 2 n) (old (len (. s stk))))))
+//@   loop 0 invariant (forall ((k Int)) (=> (and (<= 0 k) (< k (- (old (len (. s stk))) (* 2 n)))) (= (at (. s stk) k) (old (at (. s stk) k)))))
+//@   loop 0 invariant (forall ((k Int)) (=> (and (<= (- (old (len (. s stk))) (* 2 n)) k) (< k (- (old (len (. s stk))) (- n i)))) (= (at (. s stk) k) (old (at (. s stk) (+ k (- n i)))))))
+//@   loop 0 invariant (forall ((k Int)) (=> (and (<= (- (old (len (. s stk))) (- n i)) k) (< k (old (len (. s stk))))) (= (at (. s stk) k) (old (at (. s stk) (- k (- (* 2 n) (- n i))))))))
+//@ func interpreter.opcodeSwap
+//@   opt forall-patterns 1
+//@   ensures[C05.opcodeSwap] (and (= (= err nil) (>= (old (len (. t dstack stk))) 2)) (=> (= err nil) (and (= (len (. t dstack stk)) (old (len (. t dstack stk)))) (= (at (. t dstack stk) (- (len (. t dstack stk)) 1)) (old (at (. t dstack stk) (- (len (. t dstack stk)) 2)))) (= (at (. t dstack stk) (- (len (. t dstack stk)) 2)) (old (at (. t dstack stk) (- (len (. t dstack stk)) 1)))) (forall ((k Int)) (=> (and (<= 0 k) (< k (- (len (. t dstack stk)) 2))) (= (at (. t dstack stk) k) (old (at (. t dstack stk) k))))))))
+//@ func interpreter.opcodeRot
+//@   opt forall-patterns 1
+//@   ensures[C05.opcodeRot] (and (= (= err nil) (>= (old (len (. t dstack stk))) 3)) (=> (= err nil) (and (= (len (. t dstack stk)) (old (len (. t dstack stk)))) (= (at (. t dstack stk) (- (len (. t dstack stk)) 1)) (old (at (. t dstack stk) (- (len (. t dstack stk)) 3)))) (= (at (. t dstack stk) (- (len (. t dstack stk)) 2)) (old (at (. t dstack stk) (- (len (. t dstack stk)) 1)))) (= (at (. t dstack stk) (- (len (. t dstack stk)) 3)) (old (at (. t dstack stk) (- (len (. t dstack stk)) 2)))) (forall ((k Int)) (=> (and (<= 0 k) (< k (- (len (. t dstack stk)) 3))) (= (at (. t dstack stk) k) (old (at (. t dstack stk) k))))))))
+//@ func interpreter.opcode2Swap
+//@   opt forall-patterns 1
+//@   ensures[C05.opcode2Swap] (and (= (= err nil) (>= (old (len (. t dstack stk))) 4)) (=> (= err nil) (and (= (len (. t dstack stk)) (old (len (. t dstack stk)))) (= (at (. t dstack stk) (- (len (. t dstack stk)) 1)) (old (at (. t dstack stk) (- (len (. t dstack stk)) 3)))) (= (at (. t dstack stk) (- (len (. t dstack stk)) 2)) (old (at (. t dstack stk) (- (len (. t dstack stk)) 4)))) (= (at (. t dstack stk) (- (len (. t dstack stk)) 3)) (old (at (. t dstack stk) (- (len (. t dstack stk)) 1)))) (= (at (. t dstack stk) (- (len (. t dstack stk)) 4)) (old (at (. t dstack stk) (- (len (. t dstack stk)) 2)))) (forall ((k Int)) (=> (and (<= 0 k) (< k (- (len (. t dstack stk)) 4))) (= (at (. t dstack stk) k) (old (at (. t dstack stk) k))))))))
+//@ func interpreter.opcode2Rot
+//@   opt index-fn 1
+//@   ensures[C05.opcode2Rot] (and (= (= err nil) (>= (old (len (. t dstack stk))) 6)) (=> (= err nil) (and (= (len (. t dstack stk)) (old (len (. t dstack stk)))) (= (at (. t dstack stk) (- (len (. t dstack stk)) 1)) (old (at (. t dstack stk) (- (len (. t dstack stk)) 5)))) (= (at (. t dstack stk) (- (len (. t dstack stk)) 2)) (old (at (. t dstack stk) (- (len (. t dstack stk)) 6)))) (= (at (. t dstack stk) (- (len (. t dstack stk)) 3)) (old (at (. t dstack stk) (- (len (. t dstack stk)) 1)))) (= (at (. t dstack stk) (- (len (. t dstack stk)) 4)) (old (at (. t dstack stk) (- (len (. t dstack stk)) 2)))) (= (at (. t dstack stk) (- (len (. t dstack stk)) 5)) (old (at (. t dstack stk) (- (len (. t dstack stk)) 3)))) (= (at (. t dstack stk) (- (len (. t dstack stk)) 6)) (old (at (. t dstack stk) (- (len (. t dstack stk)) 4)))) (forall ((k Int)) (=> (and (<= 0 k) (< k (- (len (. t dstack stk)) 6))) (= (at (. t dstack stk) k) (old (at (. t dstack stk) k))))))))
+//@ func interpreter.opcodePick
+//@   opt index-fn 1
+//@   ensures[C05.opcodePick_err] (= (= err nil) (and (>= (old (len (. t dstack stk))) 1) (old (spec.top_ok t 0)) (<= 0 (spec.clamp32 (old (spec.top_num t 0)))) (< (spec.clamp32 (old (spec.top_num t 0))) (- (old (len (. t dstack stk))) 1))))
+//@   ensures[C05.opcodePick] (=> (= err nil) (and (= (len (. t dstack stk)) (old (len (. t dstack stk)))) (= (at (. t dstack stk) (- (len (. t dstack stk)) 1)) (old (at (. t dstack stk) (- (- (len (. t dstack stk)) 2) (spec.clamp32 (spec.top_num t 0)))))) (forall ((k Int)) (=> (and (<= 0 k) (< k (- (len (. t dstack stk)) 1))) (= (at (. t dstack stk) k) (old (at (. t dstack stk) k)))))))
+//@ func interpreter.opcodeRoll
+//@   opt index-fn 1
+//@   ensures[C05.opcodeRoll_err] (= (= err nil) (and (>= (old (len (. t dstack stk))) 1) (old (spec.top_ok t 0)) (<= 0 (spec.clamp32 (old (spec.top_num t 0)))) (< (spec.clamp32 (old (spec.top_num t 0))) (- (old (len (. t dstack stk))) 1))))
+//@   ensures[C05.opcodeRoll] (=> (= err nil) (and (= (len (. t dstack stk)) (- (old (len (. t dstack stk))) 1)) (= (at (. t dstack stk) (- (len (. t dstack stk)) 1)) (old (at (. t dstack stk) (- (- (len (. t dstack stk)) 2) (spec.clamp32 (spec.top_num t 0)))))) (forall ((k Int)) (=> (and (<= 0 k) (< k (- (- (len (. t dstack stk)) 1) (spec.clamp32 (old (spec.top_num t 0)))))) (= (at (. t dstack stk) k) (old (at (. t dstack stk) k))))) (forall ((k Int)) (=> (and (<= (- (- (len (. t dstack stk)) 1) (spec.clamp32 (old (spec.top_num t 0)))) k) (< k (- (len (. t dstack stk)) 1))) (= (at (. t dstack stk) k) (old (at (. t dstack stk) (+ k 1))))))))
